@@ -430,8 +430,8 @@ func c22BoundsFor(tier string) []c22Bounds {
 			{Sets: three, SelfLoops: false, Kinds: 3, MaxEdges: -1, MaxFail: 1, Steps: 2, Drivers: "two"},
 			{Sets: three, SelfLoops: false, Kinds: 3, MaxEdges: 2, MaxFail: 1, Steps: 2, Drivers: "all"},
 			{Sets: three, SelfLoops: false, Kinds: 3, MaxEdges: 2, MaxFail: 1, Steps: 3, Drivers: "cd"},
-			{Sets: three, SelfLoops: false, Kinds: 3, MaxEdges: 3, MaxFail: 2, Steps: 2, Drivers: "two"},
-			{Sets: three, SelfLoops: false, Kinds: 3, MaxEdges: 3, MaxFail: 1, Steps: 3, Drivers: "tty"},
+			{Sets: three, SelfLoops: false, Kinds: 3, MaxEdges: 2, MaxFail: 2, Steps: 2, Drivers: "two"},
+			{Sets: three, SelfLoops: false, Kinds: 3, MaxEdges: 2, MaxFail: 1, Steps: 3, Drivers: "tty"},
 			{Sets: four, SelfLoops: false, Kinds: 3, MaxEdges: 2, MaxFail: 1, Steps: 2, Drivers: "tty"},
 			{Sets: four, SelfLoops: false, Kinds: 3, MaxEdges: 4, MaxFail: 0, Steps: 2, Drivers: "tty"},
 		}
